@@ -25,7 +25,7 @@ KNOWN = os.environ.get('VERIF_KNOWN_FILE') or os.path.join(VERIF, 'known_finding
 _MOD = {}
 
 # run counts of the quick tier, sized from measured speed so that a check takes 30-60 s on 16 cores
-QUICK_RUNS = dict(C01=1920, C02=1280, C03=1920, C04=1600, C05=1280, C06=960, C07=1280, C08=3000, C09=960, C10=1280,
+QUICK_RUNS = dict(C01=2880, C02=1920, C03=2560, C04=1600, C05=1280, C06=1280, C07=1920, C08=4000, C09=1440, C10=1280,
                   C11=352, C12=1280, C13=12000, C14=1280, C15=4800, C16=480, C17=2880, C18=960, C19=960, C20=1920)
 
 
@@ -223,6 +223,8 @@ def run_check(pid, tier, base_seed=None, n_runs=None, workers=None, budget_s=Non
     budget = dict(mod.BUDGET[tier])
     if tier == 'quick' and pid in QUICK_RUNS:
         budget['runs'] = QUICK_RUNS[pid]
+        # the run count is what defines the quick tier; the wall cap only guards a much slower machine
+        budget['wall'] = max(budget['wall'], 150)
     if n_runs is None:
         n_runs = int(os.environ.get('VERIF_RUNS', budget['runs']))
     if budget_s is None:
